@@ -42,6 +42,11 @@ func BigIntegerFromString(ctx context.Context, s string) (*big.Int, error) {
 			// If we weren't able to decode without losing precision, return an error
 			return nil, i18n.NewError(ctx, signermsgs.MsgInvalidIntPrecisionLoss, s)
 		}
+		// The float above is rounded to 256 bits while it is parsed, so a fractional (or very long) input can be
+		// rounded to an integer without any loss being reported. Confirm the result with exact rational arithmetic.
+		if r, ok := new(big.Rat).SetString(s); ok && (!r.IsInt() || r.Num().Cmp(i) != 0) {
+			return nil, i18n.NewError(ctx, signermsgs.MsgInvalidIntPrecisionLoss, s)
+		}
 
 		return i, nil
 	}
